@@ -720,6 +720,8 @@ static int vnadata_save_common(vnadata_t *vdp, FILE *fp, const char *filename,
     const double complex *z0_vector = NULL;
     double z0_touchstone = 50.0;
     vnadata_t *conversions[VPT_NTYPES];
+    vnadata_filetype_t old_filetype;
+    bool default_format = false;
 
     /*
      * Validate pointer.
@@ -734,6 +736,7 @@ static int vnadata_save_common(vnadata_t *vdp, FILE *fp, const char *filename,
 	return -1;
     }
     aprecision = MAX(vdip->vdi_dprecision, 3);
+    old_filetype = vdip->vdi_filetype;
 
     /*
      * Init conversions to NULL.
@@ -827,6 +830,7 @@ static int vnadata_save_common(vnadata_t *vdp, FILE *fp, const char *filename,
 		    VNADATA_FORMAT_REAL_IMAG) == -1) {
 	    goto out;
 	}
+	default_format = true;
     }
 
     /*
@@ -1558,6 +1562,21 @@ out:
     if (function == vnadata_save_name && fp != NULL) {
 	(void)fclose(fp);
 	fp = NULL;
+    }
+    if (rc == -1) {
+	/*
+	 * A save that failed leaves the file type and format as they
+	 * were: take back the type deduced from the filename and the
+	 * default format.
+	 */
+	vdip->vdi_filetype = old_filetype;
+	if (default_format) {
+	    free((void *)vdip->vdi_format_vector);
+	    vdip->vdi_format_vector = NULL;
+	    vdip->vdi_format_count = 0;
+	    free((void *)vdip->vdi_format_string);
+	    vdip->vdi_format_string = NULL;
+	}
     }
     for (int i = 0; i < VPT_NTYPES; ++i) {
 	vnadata_free(conversions[i]);
